@@ -200,6 +200,8 @@ pub fn meta_opt(mode: MetaMode) -> BoxedStrategy<Option<MetaVal>> {
             Some(MetaVal::O(out))
         }),
         1 => meta_value(mode).prop_map(Some),
+        // larger than hyper's default header-buffer watermarks would be if they were lowered
+        1 => prop_oneof![Just(17_000u32), Just(24_000u32), Just(60_000u32)].prop_map(|n| Some(MetaVal::O(vec![("big".into(), MetaVal::BigStr(n))]))),
     ]
     .boxed()
 }
